@@ -870,12 +870,15 @@ func (x *strans) call(e *ast.CallExpr, en senv) (sval, *seffect) {
 		}
 	}
 	// method views on values, methods of nilable interface values
-	if len(e.Args) == 0 || true {
+	{
 		b := x.expr(sel.X, en, "")
 		if b.typ == "nil" || b.typ == "untyped" {
 			fail("method call on a constant")
 		}
 		if mv, ok := x.g.Methods[b.typ+"."+sel.Sel.Name]; ok && len(e.Args) == 0 {
+			if strings.Contains(mv.Lean, "{X}") {
+				return sval{"(" + strings.ReplaceAll(mv.Lean, "{X}", paren(b.lean)) + ")", mv.Type}, nil
+			}
 			return sval{paren(b.lean) + "." + mv.Lean, mv.Type}, nil
 		}
 		bi := x.g.typeInfo(b.typ)
